@@ -78,7 +78,8 @@ def classify(msgs):
 
 
 def replay_chunk(args):
-    scens, seed, workdir, cli_every = args
+    scens, seed, workdir, cli_every = args[:4]
+    ci = args[4] if len(args) > 4 else 0
     fails = []
     stats = {"evals": 0, "nontrivial": 0, "skipped": 0}
     for si, sc in enumerate(scens):
@@ -145,7 +146,9 @@ def replay_chunk(args):
                 toml = os.path.join(base, "a.toml")
                 open(toml, "w").write("".join(f'[platform.{p}]\ncommands = "{dbs[p]}"\n\n' for p in plats))
                 stats["evals"] += 1
-                rc, out, errtxt = C06.cli("codebasin", ["-R", "summary", toml], m.root)
+                # verbosity must not change what is tallied (with -v the warnings also reach the terminal)
+                verb = [["-v"], [], ["-v", "-v", "-q"], ["-q"], ["-vv"]][(ci + si // cli_every) % 5]
+                rc, out, errtxt = C06.cli("codebasin", verb + ["-R", "summary", toml], m.root)
                 d = []
                 if rc != 0:
                     d.append(f"codebasin exited {rc}: {out[-300:]}")
@@ -169,7 +172,7 @@ def replay_chunk(args):
                         d.append("fully honoured input printed warning totals")
                 if d:
                     fails.append(dict(layer="G", tags=sorted(tags | {"cli"}), symptom="cli-warning-totals-differ",
-                                      detail="; ".join(d) + "\nents=" + repr(sc["ents"]), case=sc))
+                                      detail=f"codebasin {' '.join(verb)}: " + "; ".join(d) + "\nents=" + repr(sc["ents"]), case=sc))
         finally:
             shutil.rmtree(base, ignore_errors=True)
     return fails, stats
@@ -210,7 +213,7 @@ def run(ctx):
     ctx.sample({"ents": cases[0]["ents"], "expected": cases[0]["warn"], "include_warnings": [r["warns"] for r in cases[0]["res"]]})
     work = ctx.scratch()
     loaded = []
-    jobs = [(c, ctx.seed, work, 6 if q else 3) for c in runner.chunks(cases, runner.NCPU * 2)]
+    jobs = [(c, ctx.seed, work, 6 if q else 3, ci) for ci, c in enumerate(runner.chunks(cases, runner.NCPU * 2))]
     for lst in runner.pmap(_jobs, jobs, chunk=1):
         for fails, stats in lst:
             ctx.cov["evaluations"] += stats["evals"]
